@@ -61,7 +61,8 @@ RULES = {
            add=_both("state", "error", "tls", "alpn_offers", "cipher_list", "certificate_list")
            + ["cc.sockname", "sc.cipher_name", "sc.via2"]),
     "10": R(ren=[(p + ".alpn_proto_negotiated", p + ".alpn") for p in ("cc", "sc")]),
-    "11": R(add=["websocket:none"]),
+    "11": R(add=[("request", "websocket:none")] if os.environ.get("VERIF_C38_COMPAT") == "repaired"  # C38.fix.diff
+            else ["websocket:none"]),
     "12": R(dele=["marked:bool"], add=["marked:str"]),
     "13": R(add=["comment"]),
     "14": R(),
@@ -181,6 +182,7 @@ class Check(core.PropertyCheck):
     REQUIRED_WITNESSES = tuple(CHAIN) + ("dump", "synthetic", "current", "future", "unsupported", "migrate_identity",
                                          "loaded_clean", "rejected", "resaved", "http", "tcp", "udp", "dns", "websocket")
     REQUIRED_ACTIONS = ("Open", "Convert", "Reject", "FromState", "Loaded", "Resave")
+    LEVEL_NOTE = ("format not modelled: the version chain and the loop of migrate_flow are modelled, the per-version field moves are data (RULES) checked as drift; formats below (0,18) and the websocket split only through the shipped dumps; synthetic old states come from harness-side inverse converters")
     ASSUMPTIONS = (
         "supported older versions = the labels of compat.converters (cross-checked against the harness's CHAIN at "
         "start-up; a mismatch is a machinery failure, not a verdict)",
@@ -198,7 +200,9 @@ class Check(core.PropertyCheck):
         from mitmproxy.io import compat
 
         labels = {cg.label_of(list(k) + [0] if isinstance(k, tuple) else k) for k in compat.converters}
-        if labels != set(CHAIN[:-1]) or str(version.FLOW_FORMAT_VERSION) != CURRENT:
+        # labels the harness does not know = a newer tree than this check (stale); a label MISSING from the table is
+        # the code's problem and is judged by the monitor (old_version_not_loaded), not here
+        if labels - set(CHAIN[:-1]) or str(version.FLOW_FORMAT_VERSION) != CURRENT:
             raise core.MachineryError(
                 f"stale version chain: converters={sorted(labels)} current={version.FLOW_FORMAT_VERSION}; update "
                 "lib/vf/compatgen.py CHAIN/BACK and props/C38.py RULES")
